@@ -1414,6 +1414,31 @@ func (x *Exec) lookup(fr *frame, s *State, in *ssa.Lookup) {
 		if isInterface(mt.Key()) && !isInterface(key.T) {
 			key = x.makeInterface(s, key, mt.Key())
 		}
+		if tbl := x.E.constTable(in.X); tbl != nil && len(key.L) == 1 {
+			// lookup in a package-level map that is a constant table (see constTable)
+			x.C.Trusted["package-level maps that are only ever read (initialised from a literal with constant keys and values, never updated, never passed on) are treated as the constant table of their initialiser"] = true
+			zero := x.E.zero(mt.Elem())
+			res := Value{T: mt.Elem(), L: append([]Term(nil), zero.L...)}
+			found := False
+			for i := len(tbl) - 1; i >= 0; i-- {
+				kv := x.operand(fr, s, tbl[i][0])
+				vv := x.operand(fr, s, tbl[i][1])
+				if len(kv.L) != 1 || len(vv.L) != len(res.L) {
+					unsup("constant table entry shape")
+				}
+				hit := Eq(key.L[0], kv.L[0])
+				for j := range res.L {
+					res.L[j] = Ite(hit, vv.L[j], res.L[j])
+				}
+				found = Or(hit, found)
+			}
+			if in.CommaOk {
+				x.setVal(fr, in, Value{T: in.Type(), L: append(append([]Term(nil), res.L...), found)})
+			} else {
+				x.setVal(fr, in, res)
+			}
+			return
+		}
 		val, ok := x.mapLookup(s, base, key, mt)
 		x.assumeTypeInv(s, val)
 		if in.CommaOk {
